@@ -73,8 +73,10 @@ def check_query(t):
     if idx != list(range(1, len(idx) + 1)):
         probs.append(f'argument map indexes {idx} are not 1..n')
     used = set(sc.get('params') or [])
-    if sc['status'] != 'unsupported' and not used <= set(idx):
-        probs.append(f'SQL uses parameters {sorted(used)} but the argument map has {idx}')
+    if sc['status'] != 'unsupported' and used != set(idx):
+        # every parameter of the argument map has to occur in the statement (PostgreSQL cannot infer the type of
+        # a declared parameter that the text never mentions), and nothing else may
+        probs.append(f'SQL mentions parameters {sorted(used)} but the argument map has {idx}')
     names = {p.name for p in ir.params}
     if names != set(argmap):
         probs.append(f'argument map names {sorted(argmap)} differ from the query parameters {sorted(names)}')
